@@ -4,7 +4,8 @@
 //   - the integer and string constants of selected packages (go/types evaluates them),
 //   - selected package-level maps with constant keys and values,
 //   - selected functions as MiniGo syntax trees (coq/theories/MiniGo/Syntax.v), constructor by
-//     constructor, with the static type go/types gives every operation.
+//     constructor, with the static type go/types gives every operation,
+//   - data.Point.CRC as the list of steps that feed its hash (coq/theories/MiniGo/Recipe.v).
 // It decides nothing: the theorems of coq/theories/Anchors/Tie*.v relate what it prints to the
 // hand-written models, and are re-checked whenever the printed text changes.
 package main
@@ -451,13 +452,137 @@ func emitLocalString(out *strings.Builder, pi *pkgInfo, coqName, fn, variable st
 	fmt.Fprintf(out, "Definition %s : list N := %s.   (* %q *)\n", coqName, coqBytes(found[0]), found[0])
 }
 
+
+// ---------- a method that feeds a hash step by step (data.Point.CRC): printed as the list of its steps ----------
+// Recognised, in order and nothing else: a guard `if p.F == CONST { return 0 }`, `h := crc32.NewIEEE()`,
+// `d := make([]byte, 8)`, `binary.LittleEndian.PutUint64(d, uint64(p.Time.UnixNano()))`,
+// `binary.LittleEndian.PutUint64(d, math.Float64bits(p.Value))`, `h.Write(d)`, `h.Write([]byte(p.F))`,
+// `return h.Sum32()`. The meaning of each step is stated in coq/theories/MiniGo/Recipe.v.
+func emitHashRecipe(out *strings.Builder, pi *pkgInfo, recvType, name string) {
+	coq := fmt.Sprintf("go_%s_%s_%s", pi.name, recvType, name)
+	for _, f := range pi.files {
+		for _, d := range f.Decls {
+			fd, ok := d.(*ast.FuncDecl)
+			if !ok || fd.Recv == nil || fd.Name.Name != name || fd.Body == nil || len(fd.Recv.List) != 1 || len(fd.Recv.List[0].Names) != 1 {
+				continue
+			}
+			if types.ExprString(fd.Recv.List[0].Type) != recvType {
+				continue
+			}
+			recv := fd.Recv.List[0].Names[0].Name
+			var steps []string
+			bad := ""
+			field := func(e ast.Expr) (string, bool) {
+				s, ok := e.(*ast.SelectorExpr)
+				if !ok {
+					return "", false
+				}
+				if id, ok := s.X.(*ast.Ident); !ok || id.Name != recv {
+					return "", false
+				}
+				return s.Sel.Name, true
+			}
+			hvar, bvar := "", ""
+			for _, s := range fd.Body.List {
+				if bad != "" {
+					break
+				}
+				switch s := s.(type) {
+				case *ast.IfStmt:
+					c, ok := s.Cond.(*ast.BinaryExpr)
+					okBody := s.Init == nil && s.Else == nil && len(s.Body.List) == 1
+					if okBody {
+						r, ok2 := s.Body.List[0].(*ast.ReturnStmt)
+						okBody = ok2 && len(r.Results) == 1 && types.ExprString(r.Results[0]) == "0"
+					}
+					if !ok || !okBody || c.Op != token.EQL {
+						bad = "an if statement that is not `if p.F == CONST { return 0 }`"
+						break
+					}
+					fl, ok1 := field(c.X)
+					v := pi.info.Types[c.Y].Value
+					if !ok1 || v == nil || v.Kind() != constant.String {
+						bad = "a guard that does not compare a field with a string constant"
+						break
+					}
+					steps = append(steps, fmt.Sprintf("HGuardZero %q (%s)", fl, coqBytes(constant.StringVal(v))))
+				case *ast.AssignStmt:
+					if s.Tok != token.DEFINE || len(s.Lhs) != 1 || len(s.Rhs) != 1 {
+						bad = "an assignment that is not a short declaration"
+						break
+					}
+					id, _ := s.Lhs[0].(*ast.Ident)
+					switch rhs := types.ExprString(s.Rhs[0]); {
+					case id != nil && rhs == "crc32.NewIEEE()" && hvar == "":
+						hvar = id.Name
+						steps = append(steps, "HNewIEEE")
+					case id != nil && rhs == "make([]byte, 8)" && bvar == "":
+						bvar = id.Name
+						steps = append(steps, "HBuf8")
+					default:
+						bad = "declaration of " + rhs
+					}
+				case *ast.ExprStmt:
+					call, ok := s.X.(*ast.CallExpr)
+					if !ok {
+						bad = "an expression statement that is not a call"
+						break
+					}
+					fn := types.ExprString(call.Fun)
+					switch {
+					case fn == "binary.LittleEndian.PutUint64" && len(call.Args) == 2 && bvar != "" && types.ExprString(call.Args[0]) == bvar:
+						switch types.ExprString(call.Args[1]) {
+						case "uint64(" + recv + ".Time.UnixNano())":
+							steps = append(steps, "HPutTimeNanoLE")
+						case "math.Float64bits(" + recv + ".Value)":
+							steps = append(steps, "HPutValueBitsLE")
+						default:
+							bad = "PutUint64 of " + types.ExprString(call.Args[1])
+						}
+					case hvar != "" && fn == hvar+".Write" && len(call.Args) == 1:
+						a := types.ExprString(call.Args[0])
+						if bvar != "" && a == bvar {
+							steps = append(steps, "HWriteBuf")
+						} else if conv, ok := call.Args[0].(*ast.CallExpr); ok && types.ExprString(conv.Fun) == "[]byte" && len(conv.Args) == 1 {
+							if fl, ok := field(conv.Args[0]); ok {
+								steps = append(steps, fmt.Sprintf("HWriteStr %q", fl))
+							} else {
+								bad = "Write of " + a
+							}
+						} else {
+							bad = "Write of " + a
+						}
+					default:
+						bad = "call of " + fn
+					}
+				case *ast.ReturnStmt:
+					if len(s.Results) == 1 && hvar != "" && types.ExprString(s.Results[0]) == hvar+".Sum32()" {
+						steps = append(steps, "HSum32")
+					} else {
+						bad = "a return that is not `return h.Sum32()`"
+					}
+				default:
+					bad = fmt.Sprintf("a statement of kind %T", s)
+				}
+			}
+			if bad != "" {
+				fmt.Fprintf(out, "(* %s is outside the hash-recipe fragment: %s *)\n", coq, bad)
+				return
+			}
+			fmt.Fprintf(out, "Definition %s : list hstep :=\n [%s].\n", coq, strings.Join(steps, ";\n  "))
+			return
+		}
+	}
+	fmt.Fprintf(out, "(* %s: not found *)\n", coq)
+}
+
 func main() {
 	repo := flag.String("repo", "/repo", "the repository to translate from")
 	outp := flag.String("out", "", "output file (Generated.v)")
 	flag.Parse()
 	var out strings.Builder
 	out.WriteString("(* GENERATED on every run by harness/cmd/anchors from the Go sources of the repository under test.\n   Do not edit: the theorems of Anchors/Tie*.v are re-checked against this text. *)\n")
-	out.WriteString("From Coq Require Import ZArith NArith List String.\nFrom Verif Require Import MiniGo.Syntax.\nImport ListNotations.\nOpen Scope string_scope.\n\n")
+	out.WriteString("From Coq Require Import ZArith NArith List String.\nFrom Verif Require Import MiniGo.Syntax MiniGo.Recipe.\nImport ListNotations.\nOpen Scope string_scope.\n\n")
 	sections := []struct {
 		dir string
 		f   func(pi *pkgInfo)
@@ -471,6 +596,7 @@ func main() {
 			emitConsts(&out, pi, func(n string) bool {
 				return strings.HasPrefix(n, "PointType") || strings.HasPrefix(n, "NodeType") || strings.HasPrefix(n, "PointValue") || n == "maxStructureSize" || n == "maxSafeInteger"
 			})
+			emitHashRecipe(&out, pi, "Point", "CRC")
 		}},
 		{"store", func(pi *pkgInfo) {
 			emitLocalString(&out, pi, "go_store_NewSqliteDb_pragmas", "NewSqliteDb", "pragmas")
